@@ -6,6 +6,37 @@ pub ghost struct FedItem { x: int }
 pub uninterp spec fn fed<T>(prefix: Seq<char>, t: T) -> FedItem;
 // rendered relay line ":source <t>" of send_msg_display, and Message::to_string_with_source
 pub uninterp spec fn disp<T>(source: Seq<char>, t: T) -> Seq<char>;
+// the text `Display` produces for a value (uninterpreted except for strings and references, which forward)
+pub uninterp spec fn dv<T>(t: T) -> Seq<char>;
+pub broadcast axiom fn ax_dv_ref<T>(t: &T)
+    ensures #[trigger] dv::<&T>(t) == dv::<T>(*t);
+pub broadcast axiom fn ax_dv_str(t: &str)
+    ensures #[trigger] dv::<&str>(t) == t@;
+pub broadcast axiom fn ax_dv_string(t: String)
+    ensures #[trigger] dv::<String>(t) == t@;
+// ":source <t>" (send_msg_display, feed_msg_source)
+pub broadcast axiom fn ax_disp_def<T>(source: Seq<char>, t: T)
+    ensures #[trigger] disp::<T>(source, t) == seq![':'] + source + seq![' '] + dv::<T>(t);
+pub broadcast group display_text { ax_dv_ref, ax_dv_str, ax_dv_string, ax_disp_def }
+// rule R23: format!("p0{}p1", a) with plain placeholders; the concatenations are opaque so that handler bodies carry no sequence arithmetic
+#[verifier::opaque]
+pub open spec fn fmt1_text(p0: Seq<char>, a: Seq<char>, p1: Seq<char>) -> Seq<char> { p0 + a + p1 }
+#[verifier::opaque]
+pub open spec fn fmt2_text(p0: Seq<char>, a: Seq<char>, p1: Seq<char>, b: Seq<char>, p2: Seq<char>) -> Seq<char> { p0 + a + p1 + b + p2 }
+#[verifier::opaque]
+pub open spec fn fmt3_text(p0: Seq<char>, a: Seq<char>, p1: Seq<char>, b: Seq<char>, p2: Seq<char>, c: Seq<char>, p3: Seq<char>) -> Seq<char> { p0 + a + p1 + b + p2 + c + p3 }
+#[verifier::external_body]
+pub fn verif_fmt1<A: fmt::Display>(p0: &str, a: &A, p1: &str) -> (r: String)
+    ensures r@ == fmt1_text(p0@, dv::<&A>(a), p1@)
+{ unimplemented!() }
+#[verifier::external_body]
+pub fn verif_fmt2<A: fmt::Display, B: fmt::Display>(p0: &str, a: &A, p1: &str, b: &B, p2: &str) -> (r: String)
+    ensures r@ == fmt2_text(p0@, dv::<&A>(a), p1@, dv::<&B>(b), p2@)
+{ unimplemented!() }
+#[verifier::external_body]
+pub fn verif_fmt3<A: fmt::Display, B: fmt::Display, C: fmt::Display>(p0: &str, a: &A, p1: &str, b: &B, p2: &str, c: &C, p3: &str) -> (r: String)
+    ensures r@ == fmt3_text(p0@, dv::<&A>(a), p1@, dv::<&B>(b), p2@, dv::<&C>(c), p3@)
+{ unimplemented!() }
 
 #[verifier::external_body]
 pub struct BufferedLineStream { x: u8 }
